@@ -33,8 +33,9 @@ META = dict(
           "on every run. POSCAR is modelled at content level (which sites are listed for which species, in which order); "
           "the float formatting/parsing and the nearest-site search of POSCAR_occ are exercised on real text but not "
           "modelled. Domain of the invariant theorem: site indices that are not negative Python indices, site maps that are "
-          "permutations, one mapping list per species. The pinned source's setocc guard (c < -2 or c > crys.Nchem) violates "
-          "the property (key c28-setocc-guard) until it is repaired to (c < -1 or c >= self.Nchem)."),
+          "permutations, one mapping list per species. The setocc guard of the originally pinned source "
+          "(c < -2 or c > crys.Nchem) is refuted by theorem C28_source_guard_refuted (about the model parameter guard_source); it "
+          "was repaired in /repo (94bbf13, c < -1 or c >= self.Nchem); if it returns the check reports key c28-setocc-guard."),
     technique="Coq proof (state machine invariant, induction over histories) + trace correspondence inside Coq + direct evaluator",
 )
 
